@@ -77,7 +77,7 @@ def check(ctx):
     o = ctx.ob('search_never_moves_back', 'R8',
                "the availability search starts at the resource's nearest availability on/after the requested date and steps "
                "exactly +1 day; the result is midnight(day) + fraction")
-    ctx.guarded(o, lambda o: sched_dep.search_monotone(ctx, o, S))
+    ctx.guarded(o, lambda o: sched_dep.search_monotone(ctx, o, S, exact=False))
 
     o = ctx.ob('outside_prerequisites_survive_clone', 'R9',
                "the scheduler works on wbs.clone(): predecessors outside the WBS (including detached tasks) must stay linked in the clone, "
@@ -87,7 +87,7 @@ def check(ctx):
         from .clone_common import clone_provenance
         # the shared clone rule reports every unfaithfulness of the copy; C02 only depends on the links and the hierarchy of
         # the copy, not on the order of siblings
-        clone_provenance(ctx, _Only(o, drop=("the order of siblings", "(getter all_children)", "(getter all_parents)")))
+        clone_provenance(ctx, _Only(o, drop=("the order of siblings", "(getter all_children)", "(getter all_parents)", "WBS attributes not copied")))
     ctx.guarded(o, clone_links)
 
     o = ctx.ob('clone_keeps_min_start_and_dates', 'R9',
